@@ -1,11 +1,18 @@
 /-
   The per-line function shared by the C02 and C10 drivers.
   Case line: `<seed> <script as S-expression>`; the seed only drives the harness's surface rendering
-  and is ignored here.  Output: `trace=<m:$?,…> status=<n>`.
+  and is ignored here.  Output: `trace=<m:$?,…> status=<n>` from the Impl model, and the Spec's
+  prediction `=trace=… status=…` in the second column.
 -/
 import YashModel.Exec.Model
 import YashModel.Exec.Sexp
+import YashModel.Exec.Spec
 namespace YashModel.Exec
+
+def showOutcome (s : St) (r : Res) : String :=
+  match r with
+  | .outOfFuel => s!"FUEL trace={showTrace s.trace}"
+  | _ => s!"trace={showTrace s.trace} status={s.status}"
 
 def runLine (line : String) : String :=
   match tokenize line with
@@ -16,9 +23,11 @@ def runLine (line : String) : String :=
       | none => "bad-case\t-"
       | some script =>
         let (s, r) := runShell 100000 {} script
-        match r with
-        | .outOfFuel => s!"FUEL trace={showTrace s.trace}\t-"
-        | _ => s!"trace={showTrace s.trace} status={s.status}\t-"
+        let (s', r') := specShell 100000 {} script
+        let spec := match r' with
+          | .outOfFuel => "-"
+          | _ => "=" ++ showOutcome s' r'
+        showOutcome s r ++ "\t" ++ spec
     | _ => "bad-case\t-"
   | [] => "bad-case\t-"
 
